@@ -72,7 +72,7 @@ pub fn generate<'ast>(
                         Some(ident(span, symbol.clone())),
                     )
                 },
-            );
+            )?;
 
             pos::spanned(
                 span,
